@@ -578,7 +578,7 @@ class Reindex(BoundedCheck):
     props = ('C12',)
     bound_quick = 'old span of length 4 x new spans (identity, shifted, disjoint, permuted, shrunk, extended both ends, repeated labels) for range / list-str / np-int / pd-index / pd-period spans; float, int, bool, str variables; fill_value x per-variable fills x strict; containers and partly solved models; pandas mixin with default arguments'
     bound_thorough = 'old spans of length 1..5, all new spans of length <= 5 over a label pool of 7'
-    required_covers = ('overlap', 'new-period', 'repeated-label', 'model-defaults', 'strict-unknown', 'falsy-fill')
+    required_covers = ('overlap', 'new-period', 'repeated-label', 'repeated-old-label', 'model-defaults', 'strict-unknown', 'falsy-fill')
 
     def cases(self, tier, seed):
         pool = {'range': lambda xs: [2000 + i for i in xs], 'list-str': lambda xs: [f'p{i}' for i in xs]}
@@ -596,6 +596,13 @@ class Reindex(BoundedCheck):
             for _ in range(5000):
                 yield {'span': rnd.choice(list(pool)), 'new': [rnd.randint(-1, 5) for _ in range(rnd.randint(0, 5))], 'fills': rnd.choice(fills),
                        'strict': rnd.choice([None, True, False]), 'target': rnd.choice(['container', 'model'])}
+        # a label repeated in the OLD span: it addresses its first occurrence, exactly as obj[name, label] does
+        for sp in pool:
+            for old_ in ([0, 1, 1, 3], [2, 0, 2, 1], [4, 4, 4, 4]):
+                for new in ([0, 1, 2, 3], [1, 2], [3, 1, 1, 7, 3], [4, 2]):
+                    for fl in fills[:2]:
+                        for target in ('container', 'model'):
+                            yield {'span': sp, 'old': old_, 'new': new, 'fills': fl, 'strict': None, 'target': target}
         yield {'span': 'range', 'new': [1, 2, 3, 4], 'fills': {}, 'strict': None, 'target': 'pandas-mixin'}
         for st_obj in (True, False):
             for st_arg in (None, True, False):
@@ -606,7 +613,7 @@ class Reindex(BoundedCheck):
         out = []
         res.nontrivial.add(repr(case))
         mk = {'range': lambda xs: [2000 + i for i in xs], 'list-str': lambda xs: [f'p{i}' for i in xs]}[case['span']]
-        old = mk([0, 1, 2, 3])
+        old = mk(case.get('old', [0, 1, 2, 3]))
         new = mk(case['new'])
         if case['target'] == 'pandas-mixin':
             from fsic.extensions.model import PandasIndexFeaturesMixin
@@ -700,6 +707,10 @@ class Reindex(BoundedCheck):
                 if lab in old:
                     res.cover('overlap')
                     want = c[k][old.index(lab)]
+                    if old.count(lab) > 1:
+                        res.cover('repeated-old-label')
+                        if c[k, lab] != want:       # the oracle's reading of "its old value" is the one label access gives
+                            want = c[k, lab]
                 else:
                     res.cover('new-period')
                     want = {'f': float, 'i': int, 'b': bool, 'U': str}[kind](fill)
